@@ -22,7 +22,7 @@ def run(tier, seed, replay=None):
         ck.replayers.setdefault(pref, replay_writer.replay)
     ck.discharge()
     if tier == "thorough":
-        r = replay_writer.run_histories(n_random=6000, seed=seed, max_failures=3, timeout=3000)
+        r = replay_writer.relevant(replay_writer.run_histories(n_random=6000, seed=seed, max_failures=6, timeout=3000))
         ck.bounded_runs.append(("bounded.write_histories", "random boundary-directed write histories through the rebuilt library vs exact model", r["calls"], r["failures"]))
     return ck
 
